@@ -1,5 +1,11 @@
 """Unit `stack`: marwood/src/vm/stack.rs — the VM stack and continuation capture / restore (C05, C07, C12)."""
 
+# Models of the stack operations that group `run` (Stack opaque there) ASSUMES, as one text: instantiated over uninterpreted views
+# (SP / WIPED) in specs/vm.py and over the concrete ones here, where the real functions are verified to satisfy them.
+CLEAR_MODEL = 'WIPED(s1) && SP(s1) == SP(s0)'
+GET_SP_MODEL = 'r0 == SP(s0)'
+GET_SP_MUT_MODEL = 'r0 == SP(s0) && SP(s1) == r1 && WIPED(s1) == WIPED(s0)'
+
 PRELUDE = r'''
 /// the target is 64-bit (x86_64): needed for the i64 <-> usize casts of Stack::get_offset
 global size_of usize == 8;
@@ -10,6 +16,9 @@ pub assume_specification<T: Clone> [<[T]>::to_vec] (s: &[T]) -> (r: Vec<T>) ensu
 /// isize::MAX / 2 slots (it can always double once more, and slot indices fit an i64 with room for an offset)
 #[verifier::external_body]
 pub proof fn axiom_stack_len(s: Stack) ensures s.cells().len() * 2 <= isize::MAX {}
+/// the views group `run` reasons with, on the real representation
+pub open spec fn m_sp(s: Stack) -> usize { s.sp_spec() }
+pub open spec fn m_wiped(s: Stack) -> bool { forall|i: int| 0 <= i < s.cells().len() ==> #[trigger] s.cells()[i] == VCell::Undefined }
 impl Stack {
     /// the stack pointer addresses an existing slot
     pub open spec fn wf(&self) -> bool { self.sp_spec() < self.cells().len() && self.cells().len() <= usize::MAX }
@@ -38,6 +47,8 @@ UNITS = [{
                 # which is what lets a continuation saved earlier be restored later (C05)
                 (['C12', 'C07', 'C05'], 'final(self).cells().len() == old(self).cells().len() && final(self).sp_spec() == old(self).sp_spec()'),
                 (['C12', 'C07'], 'forall|i: int| 0 <= i < final(self).cells().len() ==> final(self).cells()[i] == VCell::Undefined'),
+                # the model group `run` assumes for this function (same text, concrete views)
+                (['C07'], CLEAR_MODEL.replace('WIPED', 'm_wiped').replace('SP', 'm_sp').replace('s1', '*final(self)').replace('s0', '*old(self)')),
             ],
         },
         'impl Stack::grow': {
@@ -52,7 +63,8 @@ UNITS = [{
             'ensures': [(['C04'], 'index < self.cells().len() ==> (r matches Ok(c) && *c == self.cells()[index as int])'),
                         (['C04'], 'index >= self.cells().len() ==> r is Err')],
         },
-        'impl Stack::get_sp': {'props': ['C04', 'C06'], 'ensures': [(['C04'], 'r == self.sp_spec()')]},
+        'impl Stack::get_sp': {'props': ['C04', 'C06'], 'ensures': [(['C04'], 'r == self.sp_spec()'),
+            (['C07'], GET_SP_MODEL.replace('SP', 'm_sp').replace('s0', '*self').replace('r0', 'r'))]},
         'impl Stack::get_offset': {
             'props': ['C04', 'C06'],
             'requires': ['self.wf()', 'i64::MIN / 2 <= offset <= i64::MAX / 2'],
@@ -74,7 +86,8 @@ UNITS = [{
         },
         'impl Stack::get_sp_mut': {
             'props': ['C04', 'C06'],
-            'ensures': [(['C04'], '*r == old(self).sp_spec() && final(self).sp_spec() == *final(r) && final(self).cells() == old(self).cells()')],
+            'ensures': [(['C04'], '*r == old(self).sp_spec() && final(self).sp_spec() == *final(r) && final(self).cells() == old(self).cells()'),
+                        (['C07'], GET_SP_MUT_MODEL.replace('WIPED', 'm_wiped').replace('SP', 'm_sp').replace('s1', '*final(self)').replace('s0', '*old(self)').replace('r0', '*r').replace('r1', '*final(r)'))],
         },
         'impl Stack::pop': {
             'props': S5 + ['C06'],
